@@ -319,12 +319,35 @@ def _copy(x):
     return copy.deepcopy(x)
 
 
+def tgt_desc(rng):
+    """an identification target/CSCD descriptor with one of the designator kinds of SPC (company ids from a small set, so that
+    several descriptors of one vendor occur)"""
+    d = _copy(TGT_DESC)
+    company = rng.choice([0x0050C2, 0x589CFC, 0x0050C2])
+    r = rng.random()
+    if r < 0.45:
+        return d
+    if r < 0.65:
+        d["target_descriptor_parameters"] = {"association": 0, "code_set": 1, "designator_length": 8, "designator_type": 2,
+                                             "designator": {"ieee_company_id": company, "vendor_specific_extension_id": {"$b": [rng.randrange(50), 5]}}}
+    elif r < 0.8:
+        d["target_descriptor_parameters"] = {"association": 0, "code_set": 2, "designator_length": 16, "designator_type": 1,
+                                             "designator": {"t10_vendor_id": {"$hex": b"VERIF   ".hex()}, "vendor_specific_id": {"$b": [rng.randrange(50), 8]}}}
+    elif r < 0.92:
+        d["target_descriptor_parameters"] = {"association": 0, "code_set": 1, "designator_length": 8, "designator_type": 3,
+                                             "designator": {"naa": 5, "ieee_company_id": company, "vendor_specific_identifier": rng.randrange(1 << 36)}}
+    else:
+        d["target_descriptor_parameters"] = {"association": 0, "code_set": 1, "designator_length": 4, "designator_type": 0,
+                                             "designator": {"vendor_specific": {"$b": [rng.randrange(50), 4]}}}
+    return d
+
+
 def g_xcopy4(rng, cfg):
     kw = {}
     nt = 0
     if rng.random() < 0.7:
         nt = rng.randrange(4)
-        kw["target_descriptor_list"] = [_copy(TGT_DESC) for _ in range(nt)]
+        kw["target_descriptor_list"] = [tgt_desc(rng) for _ in range(nt)]
     if rng.random() < 0.7:
         segs = []
         for _ in range(rng.randrange(3)):
@@ -359,7 +382,7 @@ def g_xcopy5(rng, cfg):
     nt = 0
     if rng.random() < 0.7:
         nt = rng.randrange(4)
-        kw["cscd_descriptor_list"] = [_spc5(TGT_DESC) for _ in range(nt)]
+        kw["cscd_descriptor_list"] = [_spc5(tgt_desc(rng)) for _ in range(nt)]
     if rng.random() < 0.7:
         segs = []
         for _ in range(rng.randrange(3)):
